@@ -16,7 +16,8 @@ EXPLANATION = ("The inputs of admission are only ever compared, so its behaviour
                "incoming estimate < victim estimate strictly, otherwise release the victim's id and refresh the "
                "available space, empty sample => accept iff it now fits); the victim comparator evaluated abstractly "
                "over all 3x3 orderings (lower estimate first, heavier first on ties); estimator agreement between the "
-               "incoming key and the sampled keys; duplicate-free bounded sampling. That the estimates themselves "
+               "incoming key and the sampled keys; duplicate-free bounded sampling; every Rejected result of the loop follows the "
+               "colder comparison with the victim popped last or an exhausted sample. That the estimates themselves "
                "are right is C14's subject.")
 ASSUMPTIONS = ["std::collections::BinaryHeap::pop returns a greatest element w.r.t. Ord"]
 
